@@ -509,13 +509,18 @@ func buildSeeds() {
 		lines = append(lines, sb.SpecSAMLine(a, specs, 0))
 	}
 	seeds["bam_payload"] = [][]byte{payload, sb.SpecBAMHeader(nil, nil)}
-	// two records larger than the reader's 4 KiB inline buffer, each with several aux fields
-	{
+	// two records larger than the reader's 4 KiB inline buffer, each with several aux
+	// fields; the second one's long text lies over the place of the first one's small
+	// fields (six fillings, each a letter that is also a field type wider than one byte: a reader
+	// that reuses storage leaves a wider type letter in front of the first one's one-byte value)
+	for k := 0; k < 6; k++ {
 		long := sb.SpecBAMHeader([]byte("@SQ\tSN:c\tLN:1000\n"), []sb.RefSpec{{Name: "c", Len: 1000}})
-		for i := 0; i < 2; i++ {
-			long = append(long, sb.SpecBAMRecord(sb.ARec{Name: fmt.Sprintf("long%d", i), Ref: 0, Mate: -1, Pos: 3 + i, MPos: -1, MapQ: 1, SeqLen: 2, SeqSeed: 5, Cigar: []sb.COp{{T: 0, L: 2}},
-				Aux: []sb.AAux{{Tag: "z0", Ty: 'Z', ZN: 4300 + 100*i}, {Tag: "z1", Ty: 'i', I: -70000}, {Tag: "z2", Ty: 'B', Sub: 's', BI: []int64{-3, 4, 5}}, {Tag: "z3", Ty: 'C', I: 7}}})...)
-		}
+		long = append(long, sb.SpecBAMRecord(sb.ARec{Name: "long0", Ref: 0, Mate: -1, Pos: 3, MPos: -1, MapQ: 1, SeqLen: 2, SeqSeed: 5, Cigar: []sb.COp{{T: 0, L: 2}},
+			Aux: []sb.AAux{{Tag: "z1", Ty: 'i', I: -70000}, {Tag: "z2", Ty: 'B', Sub: 's', BI: []int64{-3, 4, 5}}, {Tag: "z3", Ty: 'C', I: 7}, {Tag: "z4", Ty: 'f', F: 1.5}, {Tag: "z0", Ty: 'Z', ZN: 4500}}})...)
+		// the second record is the shorter one (it fits into storage sized for the first)
+		// and begins with its long text, which then lies where the first one's small fields were
+		long = append(long, sb.SpecBAMRecord(sb.ARec{Name: "long1", Ref: 0, Mate: -1, Pos: 4, MPos: -1, MapQ: 1, SeqLen: 2, SeqSeed: 6, Cigar: []sb.COp{{T: 0, L: 2}},
+			Aux: []sb.AAux{{Tag: "y0", Ty: 'Z', S: strings.Repeat("iBIfSs"[k:k+1], 4300+7*k)}, {Tag: "y1", Ty: 'A', I: 'Q'}}})...)
 		seeds["bam_payload"] = append(seeds["bam_payload"], long)
 	}
 	// small inputs: one record with one aux field each, so that a mutation of a
@@ -930,7 +935,7 @@ func draw(t *rapid.T) Case {
 		s := cramGen().Draw(t, "cram")
 		c.Cram = &s
 	}
-	c.Seed = rapid.IntRange(0, 23).Draw(t, "seed")
+	c.Seed = rapid.IntRange(0, 31).Draw(t, "seed")
 	c.Muts = rapid.SliceOfN(mutGen(), 0, 6).Draw(t, "muts")
 	return c
 }
